@@ -219,6 +219,19 @@ def wl_sequence(ctx, rng, i):
                     if label == "gadget":
                         newext = json.loads(json.dumps(other_ext))
                         G.call("version:new_version(extensions=...) of own-extension-type", lambda: made_own.new_version(extensions=newext), changes=newext)
+        # history: an observed-data object whose content is (rightly) refused -- a reference to a member that is not there -- comes
+        # before the observables are parsed on their own; what the refusal interrupted must not be found lying about afterwards
+        if rnd % 2 == 0:
+            bad_od = {"type": "observed-data", "id": "observed-data--" + V.uuid_text(rng, 4), "created": "2020-01-01T00:00:00.000Z", "modified": "2020-01-01T00:00:00.000Z",
+                      "first_observed": "2020-01-01T00:00:00Z", "last_observed": "2020-01-01T00:00:00Z", "number_observed": 1,
+                      "objects": {"0": {"type": "directory", "path": "/", "contains_refs": ["5"]}, "1": {"type": "file", "name": "f", rng.choice(["x_unknown", "size"]): "junk"}}}
+            G.call("parse:refused-observed-data", lambda: stix2.parse(bad_od, version="2.0"), data=bad_od)
+            loose = {"type": rng.choice(["file", "x-stixmon-unregistered-observable"]), "name": "loose"}
+            G.call("parse_observable:dict-after-a-refused-container", lambda: stix2.parse_observable(loose, allow_custom=True, version="2.0"), data=loose)
+            back = G.call("parse_observable:dict-after-a-refused-container", lambda: stix2.parse_observable(loose, allow_custom=True, version="2.0"), data=loose)
+            if back is loose:
+                pass        # (an unregistered type kept as given is the library's documented pass-through)
+            ctx.count("parse_observable_after_refused_container")
         # observables
         if t == "observed-data" and isinstance(d.get("objects"), dict):
             for k, sco in d["objects"].items():
@@ -244,6 +257,29 @@ def wl_sequence(ctx, rng, i):
             ctx.count("deepcopies")
             G.watch("deep copy", cp)
         G.call("copy:copy", lambda: copy.copy(obj))
+        # another object of the same class, id and modified time but other content (the same version read from another source, two
+        # observables agreeing on what their id is made of), copied while the first copy is still around: its copy is ITS copy
+        if cp is not None:
+            dv = json.loads(json.dumps(d))
+            for k_ in ("name", "description", "value", "path", "key", "subject", "display_name", "pattern", "relationship_type", "opinion", "abstract", "content", "x_variant"):
+                if isinstance(dv.get(k_), str) and k_ not in ("pattern", "relationship_type", "opinion"):
+                    dv[k_] = dv[k_] + " (variant)"
+                    break
+            else:
+                dv["x_variant"] = "only in the variant"
+            try:
+                with warnings.catch_warnings():
+                    warnings.simplefilter("ignore")
+                    variant = stix2.parse(dv, allow_custom=True, version=ver)
+            except Exception:
+                variant = None
+            if variant is not None and not isinstance(variant, dict) and variant.get("id") == obj.get("id"):
+                cpv = G.call("copy:deepcopy(variant with the same id and modified)", lambda: copy.deepcopy(variant))
+                ctx.ev()
+                ctx.count("variant_deepcopies")
+                if cpv is not None and (cpv != variant or snap(json.loads(cpv.serialize())) != snap(json.loads(variant.serialize()))):
+                    ctx.violation("deepcopy-not-equal:after-copying-another-object-of-the-same-version", "deepcopy of an object gave the content of another object with the same id and modified that was copied before",
+                                  dict(case, original=variant.serialize()[:1200], copy=cpv.serialize()[:1200]))
         holder = {"values": [v for v in obj.values() if getattr(v, "__dict__", None)][:3]}
         if holder["values"]:
             hc = copy.deepcopy(holder)
